@@ -1,2 +1,9 @@
-import Adsg.Proofs.Closure
-#print axioms Adsg.mem_closure_iff_reach
+import Adsg.Props.C02
+#print axioms Adsg.C02.instance_is_reachable_set
+#print axioms Adsg.C02.instance_least
+#print axioms Adsg.C02.instance_nodup
+#print axioms Adsg.C02.run_perm
+#print axioms Adsg.C02.complete_run_eq_closure
+#print axioms Adsg.C02.canonical_run_exists
+#print axioms Adsg.C02.feasible_final_is_arch
+#print axioms Adsg.C02.arch_is_reachable
